@@ -88,6 +88,14 @@ EFFECTS = [
          calls={"_send_pingreq": dict(clobbers="*", raises="pingreq_raises"),
                 "_sock_close": dict(clobbers=["_sock"]),
                 "_do_on_disconnect": dict(clobbers="*", kwargs=["packet_from_broker", "v1_rc"])}),
+    # (attributes of type Ref are object references compared with `is`: 0 stands for None.  An attribute read after an
+    # UNCONDITIONAL call that may change it is a fresh parameter `self_<attr>_<k>` - its value after the k-th such call -
+    # which the equivalence theorem instantiates with the model's state after that call)
+    dict(file="FnKeepalive", src="client.py", qual="Client.loop_misc", name="loopMisc", params=[], ret="Int",
+         attrs=[("_sock", "Ref"), ("_keepalive", "Int"), ("_state", "Int"), ("_ping_t", "Int")], clock="now",
+         calls={"_check_keepalive": dict(clobbers="*"),
+                "_sock_close": dict(clobbers=["_sock"]),
+                "_do_on_disconnect": dict(clobbers="*", kwargs=["packet_from_broker", "v1_rc"])}),
 ]
 EXC = {"ValueError": ".valueError", "TypeError": ".typeError", "AssertionError": ".assertionError", "IndexError": ".indexError", "MQTTException": ".mqttException", "RuntimeError": ".runtimeError"}
 RESERVED = {"bytes": "bytes_", "end": "end_", "from": "from_", "at": "at_", "open": "open_"}
@@ -636,6 +644,9 @@ class EffTr(Tr):
     def __init__(self, cfg, fn, consts=None):
         super().__init__(cfg, fn, consts)
         self.clobbered = set()
+        self.epoch = 0              # number of unconditional calls so far that may change any attribute
+        self.depth = 0              # nesting depth of if / try
+        self.extra = []             # (parameter name, type) of the attributes re-read after such a call
         for a, t in cfg["attrs"]:
             self.types["self." + a] = t
 
@@ -650,10 +661,23 @@ class EffTr(Tr):
                 raise Missing(f"self.{e.left.attr} tested after a call that may change it")
             v = "self_" + self.cfg["none_tests"][e.left.attr]
             return (v if isinstance(e.ops[0], ast.IsNot) else f"(!{v})"), "Bool"
+        if isinstance(e, ast.Compare) and len(e.ops) == 1 and isinstance(e.ops[0], (ast.Is, ast.IsNot)):
+            a, ta = self.expr(e.left) if not (isinstance(e.left, ast.Constant) and e.left.value is None) else ("(0 : Int)", "Ref")
+            r = e.comparators[0]
+            b, tb = self.expr(r) if not (isinstance(r, ast.Constant) and r.value is None) else ("(0 : Int)", "Ref")
+            if ta != "Ref" or tb != "Ref":
+                raise Missing(f"`is` between {ta} and {tb}")
+            return (f"({a} == {b})" if isinstance(e.ops[0], ast.Is) else f"({a} != {b})"), "Bool"
         if self.is_self_attr(e) and ("self." + e.attr) in self.types:
             if e.attr in self.clobbered or "*" in self.clobbered:
                 raise Missing(f"self.{e.attr} read after a call or assignment that may change it")
-            return "self_" + e.attr.lstrip("_"), self.types["self." + e.attr]
+            t = self.types["self." + e.attr]
+            if self.epoch:
+                n = f"self_{e.attr.lstrip('_')}_{self.epoch}"
+                if (n, t) not in self.extra:
+                    self.extra.append((n, t))
+                return n, t
+            return "self_" + e.attr.lstrip("_"), t
         if isinstance(e, ast.Attribute) and isinstance(e.value, ast.Name) and e.value.id not in ("self", "MQTTErrorCode") and e.value.id not in self.types:
             # a member of a module-level enum class: its integer value (`.value` of a plain Enum)
             import importlib
@@ -695,7 +719,9 @@ class EffTr(Tr):
             elif t != "Int":
                 raise Missing(f"argument {k} of type {t}")
             args.append(a)
-        if c["clobbers"] == "*":
+        if c["clobbers"] == "*" and self.depth == 0 and not self.clobbered:
+            self.epoch += 1         # unconditional: what is read from here on are the values after this call
+        elif c["clobbers"] == "*":
             self.clobbered.add("*")
         else:
             self.clobbered |= set(c["clobbers"])
@@ -710,7 +736,14 @@ class EffTr(Tr):
         for s in body:
             v = s.value if isinstance(s, ast.Expr) else None
             if isinstance(s, ast.Return) and s.value is None:
+                if self.cfg.get("ret"):
+                    raise Missing("bare return in a method that returns a value")
                 out.append(f"{pad}return effs")
+            elif isinstance(s, ast.Return) and self.cfg.get("ret") == "Int":
+                val, t = self.expr(s.value)
+                if t != "Int":
+                    raise Missing(f"returns a {t}")
+                out.append(f"{pad}return ({val}, effs)")
             elif isinstance(s, ast.Assign) and len(s.targets) == 1 and isinstance(s.targets[0], ast.Name) and isinstance(s.value, ast.Call) \
                     and isinstance(s.value.func, ast.Name) and s.value.func.id == "time_func" and not s.value.args:
                 if s.targets[0].id != self.cfg["clock"] or s.targets[0].id in self.types:
@@ -733,14 +766,18 @@ class EffTr(Tr):
                 c = self.cfg["calls"][s.body[0].value.func.attr]
                 if not c.get("raises"):
                     raise Missing("try around a call not declared as possibly raising")
+                self.depth += 1
                 out.append(self.call_eff(pad, s.body[0].value))
+                self.depth -= 1
                 saved = set(self.clobbered)
+                self.depth += 1
                 out.append(f"{pad}if {c['raises']} then")
                 out += self.stmts(s.handlers[0].body, ind + 1, ctl) or [f"{pad}  pure ()"]
                 c1 = set(self.clobbered)
                 self.clobbered = set(saved)
                 out.append(f"{pad}else")
                 out += self.stmts(s.orelse, ind + 1, ctl) or [f"{pad}  pure ()"]
+                self.depth -= 1
                 self.clobbered |= c1
             elif isinstance(s, ast.If):
                 # a local assigned on every path through the `if` is declared before it (value 0 until then; a local assigned
@@ -751,12 +788,14 @@ class EffTr(Tr):
                         out.append(f"{pad}let mut {lname(n)} : Int := 0")
                 out.append(f"{pad}if {self.test(s.test)} then")
                 saved = set(self.clobbered)
+                self.depth += 1
                 out += self.stmts(s.body, ind + 1, ctl) or [f"{pad}  pure ()"]
                 c1 = set(self.clobbered)
                 self.clobbered = set(saved)
                 if s.orelse:
                     out.append(f"{pad}else")
                     out += self.stmts(s.orelse, ind + 1, ctl)
+                self.depth -= 1
                 self.clobbered |= c1
             elif isinstance(s, (ast.For, ast.While, ast.Return, ast.Try)):
                 raise Missing(f"statement {type(s).__name__} outside the subset")
@@ -768,13 +807,20 @@ class EffTr(Tr):
         cfg, fn = self.cfg, self.fn
         body = self.stmts(fn.body, 1, None)
         ps = [f"(self_{a.lstrip('_')} : {t})" for a, t in cfg["attrs"]] + [f"(self_{v} : Bool)" for v in cfg.get("none_tests", {}).values()] \
-            + [f"({cfg['clock']} : Int)"] + [f"({c['raises']} : Bool)" for c in cfg["calls"].values() if c.get("raises")]
+            + [f"({cfg['clock']} : Int)"] + [f"({c['raises']} : Bool)" for c in cfg["calls"].values() if c.get("raises")] \
+            + [f"({n} : {t})" for n, t in self.extra]
         where = f"{cfg['src']} {cfg['qual']} (line {fn.lineno})"
-        L = [f"/-- {where}: the calls and attribute assignments it makes, in execution order -/",
-             f"def {cfg['name']} {' '.join(ps)} : Except Exc (List Py.MEff) := do",
+        rt = "(Int × List Py.MEff)" if cfg.get("ret") else "(List Py.MEff)"
+        L = [f"/-- {where}: " + ("its result and " if cfg.get("ret") else "") + "the calls and attribute assignments it makes, in execution order"
+             + ("; parameters `self_<attr>_<k>`: the attribute's value after the k-th unconditional call" if self.extra else "") + " -/",
+             f"def {cfg['name']} {' '.join(ps)} : Except Exc {rt} := do",
              "  let mut effs : List Py.MEff := []"]
         L += body
-        L.append("  return effs")
+        if cfg.get("ret"):
+            if not (fn.body and isinstance(fn.body[-1], ast.Return)):
+                raise Missing("function may fall off its end")
+        else:
+            L.append("  return effs")
         return "\n".join(L)
 
 
